@@ -853,6 +853,52 @@ pub fn boundary(ctx: &Ctx, rep: &mut Report) {
         }
         rep.require("valid_triples_on_extreme_hash_inputs", 200);
     }
+    // VOLUME: one valid and one invalid triple verified again and again on all cores: verify is
+    // a function of its arguments (internal randomness such as blinding must never change it)
+    {
+        let mut rng = rng_for(ctx.seed, "c02-volume");
+        for (n, bound, l, hdr) in [(512usize, F512::BOUND, 625usize, 0x59u8), (1024, F1024::BOUND, 1239, 0x5a)] {
+            for d in [0i64, 1] {
+                let c = match craft_exact(n, bound + d, 0, &mut rng) {
+                    Some(c) => c,
+                    None => continue,
+                };
+                let body = match spec::compress(&c.s2, l) {
+                    Some(b) => b,
+                    None => continue,
+                };
+                let mut sb = vec![hdr];
+                sb.extend_from_slice(&c.salt);
+                sb.extend_from_slice(&body);
+                let pkb = spec::pk_encode(&c.h);
+                let want = d == 0;
+                let reps = ctx.sz(120_000, 3_000_000);
+                let r = par_for(64, ncpu(), |ci, rep| {
+                    fn go<V: Fv>(msg: &[u8], sb: &[u8], pkb: &[u8], want: bool, count: usize, ci: usize, rep: &mut Report) {
+                        let (sig, pk) = match (V::sig_from_bytes(sb), V::pk_from_bytes(pkb)) {
+                            (Ok(s), Ok(p)) => (s, p),
+                            _ => return,
+                        };
+                        for it in 0..count {
+                            let got = monitored(|| V::verify(msg, &sig, &pk));
+                            if got.as_ref().ok() != Some(&want) {
+                                rep.violation("verify:not-a-function-of-its-arguments", format!("{}: repetition {} of chunk {} of one fixed triple gave {:?}, Algorithm 16 says {}", V::NAME, it, ci, got.ok(), want), json!({"variant": V::NAME, "class": "volume", "msg": hex(msg), "sig": hex(sb), "pk": hex(pkb)}));
+                                break;
+                            }
+                        }
+                        rep.count("repeated_verifications_of_one_triple", count as u64);
+                        rep.evaluations += count as u64;
+                    }
+                    if n == 512 {
+                        go::<F512>(&c.msg, &sb, &pkb, want, reps / 64, ci, rep);
+                    } else {
+                        go::<F1024>(&c.msg, &sb, &pkb, want, reps / 64, ci, rep);
+                    }
+                });
+                rep.merge(r);
+            }
+        }
+    }
     interleaved(ctx, rep);
     related_variants(ctx, rep);
     // verify while a thread is being torn down (see C13): crafted triples at the bound
